@@ -100,6 +100,22 @@ def size_is_accurate_traced(length, scaled, rel, conf):
         return "inconsistent-binomial-parameters " + repr(calls)
     vals = [c[4] for c in calls] + [None] * (3 - len(calls))
     prob = du.set_size_exact_prob(mh.unique_dataset_hashes, mh.scaled, relative_error=rel)
+    # histories: the answer is a function of (sketch, relative_error, confidence) - asking again with other parameters, or
+    # after the sketch has grown, must equal the answer of a fresh object
+    hist = []
+    for rel2, conf2 in ((rel, 0.0), (rel, 1.0), (0.5, 0.5)):
+        fresh = mh.copy()
+        if bool(mh.size_is_accurate(relative_error=rel2, confidence=conf2)) != bool(fresh.size_is_accurate(relative_error=rel2, confidence=conf2)):
+            hist.append(f"size_is_accurate({rel2},{conf2}) asked again on the same object")
+    if not mh.size_is_accurate(relative_error=rel, confidence=0.0):
+        hist.append("size_is_accurate(confidence=0.0) is False")
+    mh.add_many(range(length + 1, 3 * length + 50))
+    f2 = MinHash(n=0, ksize=21, scaled=scaled)
+    f2.add_many(range(1, 3 * length + 50))
+    if bool(mh.size_is_accurate(relative_error=rel, confidence=conf)) != bool(f2.size_is_accurate(relative_error=rel, confidence=conf)):
+        hist.append("size_is_accurate after the sketch has grown")
+    if hist:
+        return "history-differs " + " | ".join(hist)
     return (f"ok calls={','.join(c[0] + ':' + bits(c[1]) for c in calls)} vals={','.join(ob(v) for v in vals)} "
             f"n={calls[0][2]} p={bits(calls[0][3])} prob={bits(prob)} acc={int(bool(acc))}")
 
@@ -258,10 +274,82 @@ def classes(w):
         r = SearchResult(qs, ms, similarity=sim(), searchtype=st, threshold_bp=0, **common_kw)
         pres, _ = _csv_presence(r, ["ani", "ani_low", "ani_high"])
         return f"{g(r, 'ani')},{g(r, 'ani_low')},{g(r, 'ani_high')},{int(r.potential_false_negative)},{pres}"
+    views = []          # anything readable two ways must agree; differences are appended to the line (the model has no such field)
+
+    def view(name, got, want):
+        if got != want:
+            views.append(f"{name}:{got}!={want}")
+
+    try:
+        if ad is not None:
+            c = mk()
+            view("cmp.avg_containment", bits(c.avg_containment), bits(ad.avg_containment(bd)))
+            view("cmp.max_containment", bits(c.max_containment), bits(ad.max_containment(bd)))
+            view("cmp.mh1_containment_in_mh2", bits(c.mh1_containment_in_mh2), bits(ad.contained_by(bd)))
+            view("cmp.jaccard", bits(c.jaccard), bits(ad.jaccard(bd)))
+            view("cmp.pass_threshold(0)", str(c.pass_threshold), "True")
+            c2 = FracMinHashComparison(a, b, cmp_scaled=cs, threshold_bp=(cm + 1) * cs_eff)
+            view("cmp.pass_threshold(above overlap)", str(c2.pass_threshold), "False")
+            # reading the properties twice, and in the other order, changes nothing
+            c3 = mk(); c3.estimate_all_containment_ani(); first = (c3.avg_containment_ani, c3.max_containment_ani)
+            c3.estimate_max_containment_ani(); c3.estimate_all_containment_ani()
+            view("estimate_all twice / after estimate_max", str((c3.avg_containment_ani, c3.max_containment_ani)), str(first))
+            pr = PrefetchResult(qs, ms, threshold_bp=0, **common_kw)
+            d1 = pr.prefetchresultdict
+            d2 = pr.prefetchresultdict
+            view("prefetchresultdict twice", str({k_: d2.get(k_) for k_ in PF_COLS}), str({k_: d1.get(k_) for k_ in PF_COLS}))
+            for col in PF_COLS:
+                view("prefetchresultdict[" + col + "]", ob(d1.get(col)), g(pr, col))
+            if cs is not None and cm > 0:
+                gr = GatherResult(qs, ms, threshold_bp=0, gather_querymh=a.downsample(scaled=cs_eff).flatten(), gather_result_rank=0,
+                                  total_weighted_hashes=len(a), orig_query_len=len(a), orig_query_abunds={h: 1 for h in a.hashes}, **common_kw)
+                dg, dp = gr.gatherresultdict, gr.prefetchresultdict
+                for col in PF_COLS:
+                    view("gatherresultdict[" + col + "]", ob(dg.get(col)), g(gr, col))
+                    view("GatherResult.prefetchresultdict[" + col + "]", ob(dp.get(col)), g(gr, col))
+            for st_ in (SearchType.CONTAINMENT, SearchType.MAX_CONTAINMENT, SearchType.JACCARD):
+                sim = {SearchType.CONTAINMENT: ad.contained_by(bd), SearchType.MAX_CONTAINMENT: ad.max_containment(bd), SearchType.JACCARD: ad.jaccard(bd)}[st_]
+                try:
+                    sr = SearchResult(qs, ms, similarity=sim, searchtype=st_, threshold_bp=0, **common_kw)
+                except ValueError:
+                    continue
+                view(f"SearchResult({st_.name}).resultdict[ani]", ob(sr.resultdict.get("ani")), g(sr, "ani"))
+            # the database layer: the same results through LinearIndex + search / prefetch / gather (cmp_scaled is not a parameter there)
+            if cs is None and cm > 0:
+                from sourmash.index import LinearIndex
+                from sourmash.search import search_databases_with_flat_query, prefetch_database, GatherDatabases
+                idx_ = LinearIndex([ms.to_frozen()], filename="db")
+                qs_m, qs = qs, qs.to_frozen()      # Index.prefetch / counter_gather need a frozen query (`query.update()`)
+                for st_, kw_ in ((SearchType.JACCARD, {}), (SearchType.CONTAINMENT, {"do_containment": True}),
+                                 (SearchType.MAX_CONTAINMENT, {"do_max_containment": True})):
+                    try:
+                        direct = SearchResult(qs, ms, similarity={SearchType.CONTAINMENT: ad.contained_by(bd), SearchType.MAX_CONTAINMENT: ad.max_containment(bd),
+                                                                  SearchType.JACCARD: ad.jaccard(bd)}[st_], searchtype=st_, estimate_ani_ci=ci and st_ != SearchType.JACCARD)
+                        want = f"{g(direct, 'ani')},{g(direct, 'ani_low')},{g(direct, 'ani_high')}"
+                    except Exception as e:      # noqa: BLE001
+                        want = "E" + exc_name(e)
+                    try:
+                        res_ = search_databases_with_flat_query(qs, [idx_], threshold=0.0, best_only=False, unload_data=False, estimate_ani_ci=ci, **kw_)
+                        got = "no-match" if not res_ else f"{g(res_[0], 'ani')},{g(res_[0], 'ani_low')},{g(res_[0], 'ani_high')}"
+                    except Exception as e:      # noqa: BLE001
+                        got = "E" + exc_name(e)
+                    if got != "no-match":
+                        view(f"search_databases_with_flat_query({st_.name})", got, want)
+                want = ",".join(g(PrefetchResult(qs, ms, threshold_bp=0, estimate_ani_ci=ci), col) for col in PF_COLS)
+                pl = list(prefetch_database(qs, idx_, 0, estimate_ani_ci=ci))
+                if pl:
+                    view("prefetch_database", ",".join(g(pl[0], col) for col in PF_COLS), want)
+                if sa == sb:
+                    gd = GatherDatabases(qs, [idx_.counter_gather(qs, 0)], threshold_bp=0, estimate_ani_ci=ci)
+                    gl = list(gd)
+                    if gl:
+                        view("GatherDatabases", ",".join(g(gl[0], col) for col in PF_COLS), want)
+    except Exception as e:      # noqa: BLE001
+        views.append(f"views-raised:{exc_name(e)}:{str(e)[:80].replace(' ', '_')}")
     out.append("s.c=" + _try(lambda: search(SearchType.CONTAINMENT, lambda: ad.contained_by(bd) if ad is not None else 0.5)))
     out.append("s.m=" + _try(lambda: search(SearchType.MAX_CONTAINMENT, lambda: ad.max_containment(bd) if ad is not None else 0.5)))
     out.append("s.j=" + _try(lambda: search(SearchType.JACCARD, lambda: ad.jaccard(bd) if ad is not None else 0.5)))
-    return "ok " + " ".join(out)
+    return "ok " + " ".join(out) + ((" views=DIFF:" + "|".join(views)[:600]) if views else "")
 
 
 def classes_num(w):
@@ -418,7 +506,13 @@ def do(w):
         c, k, scaled, n, pthr = fl(w[1]), int(w[2]), int(w[3]), int(w[4]), ofl(w[5])
         if k == 0 or scaled == 0:
             return "bad-op"
-        return show_ci(du.containment_to_distance(c, k, scaled, n_unique_kmers=n, prob_threshold=pthr))
+        return agree("c2d", [
+            ("n_unique_kmers=", lambda: show_ci(du.containment_to_distance(c, k, scaled, n_unique_kmers=n, prob_threshold=pthr))),
+            ("sequence_len_bp=", lambda: show_ci(du.containment_to_distance(c, k, scaled, sequence_len_bp=n + k - 1, prob_threshold=pthr))),
+            ("both given", lambda: show_ci(du.containment_to_distance(c, k, scaled, n_unique_kmers=n, sequence_len_bp=10 ** 9, prob_threshold=pthr))),
+            ("estimate_ci=False, confidence=0.5", lambda: show_ci(du.containment_to_distance(
+                c, k, scaled, n_unique_kmers=n, prob_threshold=pthr, estimate_ci=False, confidence=0.5))),
+        ])
     if op == "c2dci" and len(w) == 9:
         c, k, scaled, n, pthr, conf = fl(w[1]), int(w[2]), int(w[3]), int(w[4]), ofl(w[5]), fl(w[6])
         if k == 0 or scaled == 0:
@@ -432,7 +526,10 @@ def do(w):
         j, k, scaled, n, pthr, ethr = fl(w[1]), int(w[2]), int(w[3]), int(w[4]), ofl(w[5]), ofl(w[6])
         if k == 0 or scaled == 0:
             return "bad-op"
-        return show_jac(du.jaccard_to_distance(j, k, scaled, n_unique_kmers=n, prob_threshold=pthr, err_threshold=ethr))
+        return agree("j2d", [
+            ("n_unique_kmers=", lambda: show_jac(du.jaccard_to_distance(j, k, scaled, n_unique_kmers=n, prob_threshold=pthr, err_threshold=ethr))),
+            ("sequence_len_bp=", lambda: show_jac(du.jaccard_to_distance(j, k, scaled, sequence_len_bp=n + k - 1, prob_threshold=pthr, err_threshold=ethr))),
+        ])
     if op == "res" and len(w) >= 6:
         kind = w[1]
         d, p, pthr = fl(w[2]), fl(w[3]), ofl(w[4])
@@ -468,17 +565,111 @@ def do(w):
         else:
             v1, v2 = a.jaccard(b), b.jaccard(a)
         head = f"acc={acc} v={bits(v1)},{bits(v2)} "
-        try:
-            if kind == "cont":
-                return head + show_ci(a.containment_ani(b))
-            if kind == "max":
-                return head + show_ci(a.max_containment_ani(b))
-            if kind == "jac":
-                return head + show_jac(a.jaccard_ani(b))
-            return head + "ok ani=" + ob(a.avg_containment_ani(b))
-        except Exception as e:      # noqa: BLE001
-            return head + "err " + exc_name(e)
+        # ONE estimate, several spellings (sketch level / signature level, defaults / the documented values spelled out,
+        # pre-computed containment or Jaccard handed in, downsample=True on equal scaled, the module-level function):
+        # the route that answers alternates under a per-case counter the model does not see; all of them must agree
+        routes = ani_routes(kind, a, b, v1)
+        names = list(routes)
+        ROUTE[1] += 1
+        if ROUTE[1] % 2:          # every other op: only the reference spelling and the one whose turn it is (cost)
+            turn = names[(ROUTE[0] + 1) % len(names)]
+            names = [names[0]] + ([turn] if turn != names[0] else [])
+        outs = {}
+        for nm in names:
+            try:
+                outs[nm] = routes[nm]()
+            except Exception as e:      # noqa: BLE001
+                outs[nm] = "err " + exc_name(e)
+        ROUTE[0] += 1
+        chosen = names[ROUTE[0] % len(names)]
+        differ = [nm for nm in names if outs[nm] != outs[names[0]]]
+        if kind in ("cont", "max") and (ROUTE[0] % 4 == 0):
+            # non-default options must be forwarded by the signature-level wrappers too
+            from sourmash import SourmashSignature
+            sa_, sb_ = SourmashSignature(a, name="a"), SourmashSignature(b, name="b")
+            meth = "containment_ani" if kind == "cont" else "max_containment_ani"
+            o1 = _try(lambda: show_ci(getattr(a, meth)(b, estimate_ci=True, confidence=0.9)))
+            o2 = _try(lambda: show_ci(getattr(sa_, meth)(sb_, estimate_ci=True, confidence=0.9)))
+            if o1 != o2:
+                differ.append(f"SourmashSignature.{meth}(estimate_ci=True,confidence=0.9)")
+        return head + outs[chosen] + " routes=" + ("ok" if not differ else ",".join(differ) + "!=" + names[0])
     return "bad-op"
+
+
+def agree(what, routes):
+    """one operation, several spellings: the answering spelling alternates per case; a spelling that answers differently
+    replaces the whole line by `routes-differ …` (the model has one operation, the oracle reports it)"""
+    outs = []
+    for nm, f in routes:
+        try:
+            outs.append(f())
+        except Exception as e:      # noqa: BLE001
+            outs.append("err " + exc_name(e))
+    ROUTE[0] += 1
+    differ = [routes[i][0] for i in range(len(routes)) if outs[i] != outs[0]]
+    if differ:
+        return f"routes-differ {what}: " + ",".join(differ) + " != " + routes[0][0] + f" :: {outs[0][:60]} :: {outs[[r[0] for r in routes].index(differ[0])][:60]}"
+    return outs[ROUTE[0] % len(outs)]
+
+
+ROUTE = [0, 0]
+P_THR, E_THR, CONF = 1e-3, 1e-4, 0.95        # the documented defaults (distance_utils.py / minhash.py docstrings and signatures)
+
+
+def ani_routes(kind, a, b, v1):
+    from sourmash import SourmashSignature
+    sa, sb = SourmashSignature(a, name="a"), SourmashSignature(b, name="b")
+    fa, fb = a.to_frozen(), b.to_frozen()
+    if kind == "cont":
+        return {
+            "MinHash.containment_ani()": lambda: show_ci(a.containment_ani(b)),
+            "MinHash.containment_ani(defaults spelled out)": lambda: show_ci(a.containment_ani(
+                b, downsample=False, containment=None, confidence=CONF, estimate_ci=False, prob_threshold=P_THR)),
+            "MinHash.containment_ani(containment=contained_by)": lambda: show_ci(a.containment_ani(b, containment=v1)),
+            "MinHash.containment_ani(downsample=True)": lambda: show_ci(a.containment_ani(b, downsample=True)),
+            "FrozenMinHash.containment_ani()": lambda: show_ci(fa.containment_ani(fb)),
+            "SourmashSignature.containment_ani()": lambda: show_ci(sa.containment_ani(sb)),
+            "SourmashSignature.containment_ani(defaults spelled out)": lambda: show_ci(sa.containment_ani(
+                sb, downsample=False, containment=None, confidence=CONF, estimate_ci=False)),
+        }
+    if kind == "max":
+        return {
+            "MinHash.max_containment_ani()": lambda: show_ci(a.max_containment_ani(b)),
+            "MinHash.max_containment_ani(defaults spelled out)": lambda: show_ci(a.max_containment_ani(
+                b, downsample=False, max_containment=None, confidence=CONF, estimate_ci=False, prob_threshold=P_THR)),
+            "MinHash.max_containment_ani(max_containment=given)": lambda: show_ci(a.max_containment_ani(b, max_containment=v1)),
+            "MinHash.max_containment_ani(downsample=True)": lambda: show_ci(a.max_containment_ani(b, downsample=True)),
+            "SourmashSignature.max_containment_ani()": lambda: show_ci(sa.max_containment_ani(sb)),
+            "SourmashSignature.max_containment_ani(defaults spelled out)": lambda: show_ci(sa.max_containment_ani(
+                sb, downsample=False, max_containment=None, confidence=CONF, estimate_ci=False)),
+        }
+    if kind == "jac":
+        def module_level():
+            r = du.jaccard_to_distance(v1, a.ksize, a.scaled, n_unique_kmers=round((len(a) + len(b)) / 2 * a.scaled))
+            if not a.size_is_accurate() or not b.size_is_accurate():
+                r.size_is_inaccurate = True
+            return show_jac(r)
+        return {
+            "MinHash.jaccard_ani()": lambda: show_jac(a.jaccard_ani(b)),
+            "MinHash.jaccard_ani(defaults spelled out)": lambda: show_jac(a.jaccard_ani(
+                b, downsample=False, jaccard=None, prob_threshold=P_THR, err_threshold=E_THR)),
+            "MinHash.jaccard_ani(jaccard=given)": lambda: show_jac(a.jaccard_ani(b, jaccard=v1)),
+            "MinHash.jaccard_ani(downsample=True)": lambda: show_jac(a.jaccard_ani(b, downsample=True)),
+            "FrozenMinHash.jaccard_ani()": lambda: show_jac(fa.jaccard_ani(fb)),
+            "SourmashSignature.jaccard_ani()": lambda: show_jac(sa.jaccard_ani(sb)),
+            "SourmashSignature.jaccard_ani(defaults spelled out)": lambda: show_jac(sa.jaccard_ani(
+                sb, downsample=False, jaccard=None, prob_threshold=P_THR, err_threshold=E_THR)),
+            "jaccard_to_distance() + size flag": module_level,
+        }
+    return {
+        "MinHash.avg_containment_ani()": lambda: "ok ani=" + ob(a.avg_containment_ani(b)),
+        "MinHash.avg_containment_ani(defaults spelled out)": lambda: "ok ani=" + ob(a.avg_containment_ani(b, downsample=False, prob_threshold=P_THR)),
+        "MinHash.avg_containment_ani(downsample=True)": lambda: "ok ani=" + ob(a.avg_containment_ani(b, downsample=True)),
+        "SourmashSignature.avg_containment_ani()": lambda: "ok ani=" + ob(sa.avg_containment_ani(sb)),
+        "SourmashSignature.avg_containment_ani(downsample=False)": lambda: "ok ani=" + ob(sa.avg_containment_ani(sb, downsample=False)),
+        "mean of the two containment_ani": lambda: "ok ani=" + ob(
+            None if a.containment_ani(b).ani is None or b.containment_ani(a).ani is None else (a.containment_ani(b).ani + b.containment_ani(a).ani) / 2),
+    }
 
 
 def main():
@@ -486,6 +677,7 @@ def main():
     for line in sys.stdin:
         w = line.split()
         if w and w[0] == "#":
+            ROUTE[0] = ROUTE[1] = 0
             res = "#"
         elif not w:
             res = "bad-op"
